@@ -356,6 +356,7 @@ Section B64.
         replace ((4 mod 4 =? 0)%nat) with true by reflexivity. cbn [andb].
         destruct (base64_groups alphabet [a; b]) as [o|]; [rewrite app_nil_r|]; reflexivity.
       + cbn [app repeat]. rewrite decode_pad_unfold.
+        change (61 :: repeat 61 k) with (repeat 61 (S k)).
         rewrite (decode_pad_pads (S k)) by lia.
         replace (((length [a; b] + S (S (S k))) mod 4 =? 0)%nat && (S (S (S k)) <=? 2)%nat) with false
           by (rewrite andb_false_r; reflexivity).
@@ -368,13 +369,15 @@ Section B64.
         replace (((length [a; b; c] + 1) mod 4 =? 0)%nat && (1 <=? 2)%nat) with true by reflexivity.
         destruct (base64_groups alphabet [a; b; c]) as [o|]; [rewrite app_nil_r|]; reflexivity.
       + cbn [app repeat]. rewrite decode_pad_unfold.
+        change (61 :: repeat 61 k) with (repeat 61 (S k)).
         rewrite (decode_pad_pads (S k)) by lia.
         replace (((length [a; b; c] + S (S k)) mod 4 =? 0)%nat && (S (S k) <=? 2)%nat) with false.
         * destruct (pad_block a b c 61); reflexivity.
         * destruct k as [|k]; [reflexivity | rewrite andb_false_r; reflexivity].
     - intros a b c d r IH Hn k Hk. unfold no61 in Hn. cbn [forallb] in Hn.
-      assert (Hd : d <> 61) by lia.
-      assert (Hr : no61 r = true) by (unfold no61; lia).
+      apply andb_prop in Hn. destruct Hn as [_ Hn]. apply andb_prop in Hn. destruct Hn as [_ Hn].
+      apply andb_prop in Hn. destruct Hn as [_ Hn]. apply andb_prop in Hn. destruct Hn as [Hd Hr].
+      assert (Hd' : d <> 61) by lia. clear Hd. rename Hd' into Hd. fold (no61 r) in Hr.
       cbn [app]. rewrite decode_pad_unfold, (pad_block_full a b c d Hd), (IH Hr k Hk).
       rewrite decode_base_groups.
       replace ((length (a :: b :: c :: d :: r) + k) mod 4 =? 0)%nat with ((length r + k) mod 4 =? 0)%nat.
@@ -388,3 +391,312 @@ Section B64.
       + destruct (base64_groups alphabet [a; b; c; d]); reflexivity.
   Qed.
 End B64.
+
+(* ---------- the two alphabets ---------- *)
+Definition alphabet_of (url : bool) : list N := if url then BASE64URL else BASE64.
+
+Lemma alphabet_small : forall url a, In a (alphabet_of url) -> a < 128.
+Proof.
+  intros url a H. assert (Hb : forallb (fun x => x <? 128) (alphabet_of url) = true) by (destruct url; vm_compute; reflexivity).
+  rewrite forallb_forall in Hb. specialize (Hb a H). lia.
+Qed.
+
+Lemma b64_value_index : forall url c, b64_value url c = index_of c (alphabet_of url).
+Proof.
+  intros url c. destruct (N.lt_ge_cases c 128) as [Hlt|Hge].
+  - assert (H : (fun c => match b64_value url c, index_of c (alphabet_of url) with
+                          | Some a, Some b => a =? b | None, None => true | _, _ => false end) c = true).
+    { revert c Hlt. apply (forallb_below _ 128). destruct url; vm_compute; reflexivity. }
+    cbv beta in H. destruct (b64_value url c), (index_of c (alphabet_of url)); try discriminate; try reflexivity.
+    apply N.eqb_eq in H. congruence.
+  - rewrite index_of_small; [|apply alphabet_small|exact Hge]. unfold b64_value.
+    replace ((65 <=? c) && (c <=? 90)) with false by lia.
+    replace ((97 <=? c) && (c <=? 122)) with false by lia.
+    replace ((48 <=? c) && (c <=? 57)) with false by lia.
+    replace (c =? 45) with false by lia. replace (c =? 95) with false by lia.
+    replace (c =? 43) with false by lia. replace (c =? 47) with false by lia. destruct url; reflexivity.
+Qed.
+
+Lemma b64_value_lt : forall url c v, b64_value url c = Some v -> v < 64.
+Proof.
+  intros url c v H. unfold b64_value in H.
+  destruct ((65 <=? c) && (c <=? 90)) eqn:E1; [inversion H; lia|].
+  destruct ((97 <=? c) && (c <=? 122)) eqn:E2; [inversion H; lia|].
+  destruct ((48 <=? c) && (c <=? 57)) eqn:E3; [inversion H; lia|].
+  destruct url.
+  - destruct (c =? 45); [inversion H; lia|]. destruct (c =? 95); [inversion H; lia | discriminate].
+  - destruct (c =? 43); [inversion H; lia|]. destruct (c =? 47); [inversion H; lia | discriminate].
+Qed.
+
+Lemma b64_value_61 : forall url, b64_value url 61 = None.
+Proof. intros [|]; reflexivity. Qed.
+
+(* ---------- facts about the RFC groups ---------- *)
+Definition not_in (alphabet : list N) (c : N) : bool := match index_of c alphabet with None => true | Some _ => false end.
+
+Lemma groups_bad : forall alphabet s, existsb (not_in alphabet) s = true -> base64_groups alphabet s = None.
+Proof.
+  intros alphabet. apply (quad_induction (fun s => existsb (not_in alphabet) s = true -> base64_groups alphabet s = None)).
+  - discriminate.
+  - reflexivity.
+  - intros a b H. cbn [existsb base64_groups] in *. unfold not_in in H.
+    destruct (index_of a alphabet); [|reflexivity]. destruct (index_of b alphabet); [|reflexivity]. discriminate.
+  - intros a b c H. cbn [existsb base64_groups] in *. unfold not_in in H.
+    destruct (index_of a alphabet); [|reflexivity]. destruct (index_of b alphabet); [|reflexivity].
+    destruct (index_of c alphabet); [|reflexivity]. discriminate.
+  - intros a b c d r IH H. cbn [existsb base64_groups] in *. unfold not_in in H at 1 2 3 4.
+    destruct (index_of a alphabet); [|reflexivity]. destruct (index_of b alphabet); [|reflexivity].
+    destruct (index_of c alphabet); [|reflexivity]. destruct (index_of d alphabet); [|reflexivity].
+    cbn [orb] in H. rewrite (IH H). reflexivity.
+Qed.
+
+Lemma existsb_weaken : forall (p q : N -> bool) s, (forall c, p c = true -> q c = true) ->
+  existsb p s = true -> existsb q s = true.
+Proof.
+  intros p q s Hpq H. apply existsb_exists in H. destruct H as [c [Hc Hp]].
+  apply existsb_exists. exists c. auto.
+Qed.
+
+Definition special (c : N) : bool := (c =? 43) || (c =? 47) || (c =? 45) || (c =? 95).
+
+Lemma index_agree : forall c, special c = false -> index_of c BASE64 = index_of c BASE64URL.
+Proof.
+  intros c H. unfold BASE64, BASE64URL.
+  assert (Happ : forall l t1 t2, index_of c t1 = None -> index_of c t2 = None ->
+            index_of c (l ++ t1) = index_of c (l ++ t2)).
+  { induction l as [|a l IHl]; intros t1 t2 H1 H2; cbn [app index_of]; [congruence|].
+    destruct (c =? a); [reflexivity|]. rewrite (IHl t1 t2 H1 H2). reflexivity. }
+  unfold special in H. apply Happ; cbn [index_of].
+  - replace (c =? 43) with false by lia. replace (c =? 47) with false by lia. reflexivity.
+  - replace (c =? 45) with false by lia. replace (c =? 95) with false by lia. reflexivity.
+Qed.
+
+Lemma groups_agree : forall s, existsb special s = false -> base64_groups BASE64 s = base64_groups BASE64URL s.
+Proof.
+  apply (quad_induction (fun s => existsb special s = false -> base64_groups BASE64 s = base64_groups BASE64URL s)).
+  - reflexivity.
+  - reflexivity.
+  - intros a b H. cbn [existsb] in H. apply orb_false_elim in H. destruct H as [Ha H].
+    apply orb_false_elim in H. destruct H as [Hb _]. cbn [base64_groups].
+    rewrite (index_agree a Ha), (index_agree b Hb). reflexivity.
+  - intros a b c H. cbn [existsb] in H. apply orb_false_elim in H. destruct H as [Ha H].
+    apply orb_false_elim in H. destruct H as [Hb H]. apply orb_false_elim in H. destruct H as [Hc _].
+    cbn [base64_groups]. rewrite (index_agree a Ha), (index_agree b Hb), (index_agree c Hc). reflexivity.
+  - intros a b c d r IH H. cbn [existsb] in H. apply orb_false_elim in H. destruct H as [Ha H].
+    apply orb_false_elim in H. destruct H as [Hb H]. apply orb_false_elim in H. destruct H as [Hc H].
+    apply orb_false_elim in H. destruct H as [Hd Hr].
+    cbn [base64_groups]. rewrite (index_agree a Ha), (index_agree b Hb), (index_agree c Hc), (index_agree d Hd), (IH Hr).
+    reflexivity.
+Qed.
+
+(* ---------- shape of a literal without inner padding: data followed by k '=' ---------- *)
+Lemma inner_pad_split : forall s, inner_pad s = false ->
+  exists data k, s = data ++ repeat 61 k /\ no61 data = true.
+Proof.
+  induction s as [|a r IH]; intros H.
+  - exists [], O. auto.
+  - assert (Hr : inner_pad r = false).
+    { destruct r as [|b r']; [reflexivity|].
+      change (inner_pad (a :: b :: r')) with (((a =? 61) && negb (b =? 61)) || inner_pad (b :: r')) in H.
+      apply orb_false_elim in H. tauto. }
+    destruct (IH Hr) as [data [k [E Hn]]].
+    destruct (a =? 61) eqn:Ea.
+    + apply N.eqb_eq in Ea. subst a.
+      destruct data as [|d data'].
+      * exists [], (S k). cbn [app] in *. subst r. auto.
+      * exfalso. cbn [app] in E. subst r.
+        change (inner_pad (61 :: d :: data' ++ repeat 61 k)) with
+          (((61 =? 61) && negb (d =? 61)) || inner_pad (d :: data' ++ repeat 61 k)) in H.
+        unfold no61 in Hn. cbn [forallb] in Hn. apply andb_prop in Hn. destruct Hn as [Hd _].
+        rewrite Hd in H. cbn in H. discriminate.
+    + exists (a :: data), k. subst r. split; [reflexivity|]. unfold no61 in *. cbn [forallb]. rewrite Ea. exact Hn.
+Qed.
+
+Lemma strip_pad_rev_repeat : forall k t n, (forall c t', t = c :: t' -> (c =? 61) = false) ->
+  strip_pad_rev (repeat 61 k ++ t) n = (t, (n + k)%nat).
+Proof.
+  induction k as [|k IH]; intros t n Ht.
+  - cbn [repeat app]. replace (n + 0)%nat with n by lia. destruct t as [|c t']; [reflexivity|].
+    cbn [strip_pad_rev]. rewrite (Ht c t' eq_refl). reflexivity.
+  - cbn [repeat app strip_pad_rev]. replace (61 =? 61) with true by reflexivity.
+    rewrite (IH t (S n) Ht). f_equal. lia.
+Qed.
+
+Lemma rev_repeat : forall (c : N) k, rev (repeat c k) = repeat c k.
+Proof.
+  intros c k. induction k as [|k IH]; [reflexivity|].
+  cbn [repeat rev]. rewrite IH. clear IH. induction k as [|k IH]; [reflexivity|].
+  cbn [repeat app]. rewrite IH. reflexivity.
+Qed.
+
+Lemma base64_with_shape : forall alphabet data k, no61 data = true ->
+  base64_with alphabet (data ++ repeat 61 k) =
+  if (k =? 0)%nat || ((length data + k) mod 4 =? 0)%nat && (k <=? 2)%nat then base64_groups alphabet data else None.
+Proof.
+  intros alphabet data k Hn. unfold base64_with.
+  rewrite rev_app_distr, rev_repeat, strip_pad_rev_repeat.
+  - rewrite rev_involutive. reflexivity.
+  - intros c t' E. unfold no61 in Hn. rewrite <- forallb_rev, E in Hn. cbn [forallb] in Hn.
+    apply andb_prop in Hn. destruct Hn as [Hc _]. destruct (c =? 61); [discriminate | reflexivity].
+Qed.
+
+Lemma contains_app_pads : forall c data k, c <> 61 -> contains c (data ++ repeat 61 k) = contains c data.
+Proof.
+  intros c data k Hc. unfold contains. rewrite existsb_app.
+  assert (H : existsb (N.eqb c) (repeat 61 k) = false).
+  { induction k as [|k IH]; [reflexivity|]. cbn [repeat existsb]. rewrite IH. replace (c =? 61) with false by lia. reflexivity. }
+  rewrite H. apply orb_false_r.
+Qed.
+
+Lemma contains_61 : forall data k, no61 data = true -> contains 61 (data ++ repeat 61 k) = negb (k =? 0)%nat.
+Proof.
+  intros data k Hn. unfold contains. rewrite existsb_app.
+  assert (Hd : existsb (N.eqb 61) data = false).
+  { unfold no61 in Hn. induction data as [|a d IH]; [reflexivity|]. cbn [forallb existsb] in *.
+    apply andb_prop in Hn. destruct Hn as [Ha Hd]. rewrite (IH Hd). rewrite N.eqb_sym. destruct (a =? 61); [discriminate | reflexivity]. }
+  rewrite Hd. destruct k as [|k]; reflexivity.
+Qed.
+
+Lemma all_ascii_app_pads : forall data k, all_ascii (data ++ repeat 61 k) = all_ascii data.
+Proof.
+  intros data k. unfold all_ascii. rewrite forallb_app.
+  assert (H : forallb (fun c => c <? 128) (repeat 61 k) = true).
+  { induction k as [|k IH]; [reflexivity|]. cbn [repeat forallb]. rewrite IH. reflexivity. }
+  rewrite H. apply andb_true_r.
+Qed.
+
+Lemma contains_not_in : forall c alphabet s, contains c s = true -> index_of c alphabet = None ->
+  existsb (not_in alphabet) s = true.
+Proof.
+  intros c alphabet s H Hi. unfold contains in H. apply existsb_exists in H. destruct H as [x [Hx Hc]].
+  apply N.eqb_eq in Hc. subst x. apply existsb_exists. exists c. split; [exact Hx|]. unfold not_in. rewrite Hi. reflexivity.
+Qed.
+
+Lemma nonascii_not_in : forall url s, all_ascii s = false -> existsb (not_in (alphabet_of url)) s = true.
+Proof.
+  intros url s H. unfold all_ascii in H.
+  induction s as [|a r IH]; [discriminate|]. cbn [forallb existsb] in *.
+  destruct (a <? 128) eqn:Ea.
+  - cbn [andb] in H. rewrite (IH H). apply orb_true_r.
+  - unfold not_in. rewrite index_of_small; [reflexivity | apply alphabet_small | lia].
+Qed.
+
+Lemma no_special : forall s, contains 43 s = false -> contains 47 s = false -> contains 45 s = false -> contains 95 s = false ->
+  existsb special s = false.
+Proof.
+  induction s as [|a r IH]; intros H1 H2 H3 H4; [reflexivity|].
+  unfold contains in *. cbn [existsb] in *.
+  apply orb_false_elim in H1, H2, H3, H4. destruct H1 as [A1 B1], H2 as [A2 B2], H3 as [A3 B3], H4 as [A4 B4].
+  rewrite (IH B1 B2 B3 B4). unfold special.
+  rewrite (N.eqb_sym a 43), (N.eqb_sym a 47), (N.eqb_sym a 45), (N.eqb_sym a 95), A1, A2, A3, A4. reflexivity.
+Qed.
+
+(* the decoder of the crate = RFC 4648 under either alphabet, for literals without inner padding *)
+Theorem base64_decode_either : forall s, inner_pad s = false -> base64_decode s = base64_either s.
+Proof.
+  intros s Hip. destruct (inner_pad_split s Hip) as [data [k [-> Hn]]].
+  unfold base64_either. rewrite !(base64_with_shape _ data k Hn).
+  unfold base64_decode. rewrite all_ascii_app_pads, !contains_app_pads by discriminate. rewrite (contains_61 data k Hn).
+  set (cond := (k =? 0)%nat || ((length data + k) mod 4 =? 0)%nat && (k <=? 2)%nat).
+  (* what the chosen decoder computes *)
+  assert (Hdec : forall url,
+            (if negb (k =? 0)%nat then decode_pad (b64_value url) (data ++ repeat 61 k)
+             else decode_base (b64_value url) (data ++ repeat 61 k))
+            = if cond then base64_groups (alphabet_of url) data else None).
+  { intros url. unfold cond. destruct k as [|k].
+    - cbn [Nat.eqb negb orb repeat]. rewrite app_nil_r.
+      apply (decode_base_groups _ _ (b64_value_index url) (b64_value_lt url)).
+    - cbn [Nat.eqb negb orb].
+      apply (decode_pad_core _ _ (b64_value_index url) (b64_value_lt url) (b64_value_61 url) data Hn); lia. }
+  destruct (all_ascii data) eqn:Easc; cbn [negb].
+  2:{ (* a non-ASCII character is in neither alphabet *)
+      rewrite (groups_bad BASE64 data (nonascii_not_in false data Easc)).
+      rewrite (groups_bad BASE64URL data (nonascii_not_in true data Easc)). destruct cond; reflexivity. }
+  destruct (contains 43 data || contains 47 data) eqn:Ecl.
+  - assert (Hurl_bad : base64_groups BASE64URL data = None).
+    { apply groups_bad. apply orb_prop in Ecl. destruct Ecl as [E|E].
+      - apply (contains_not_in 43); [exact E | reflexivity].
+      - apply (contains_not_in 47); [exact E | reflexivity]. }
+    destruct (contains 45 data || contains 95 data) eqn:Eurl; cbn [andb].
+    + assert (Hstd_bad : base64_groups BASE64 data = None).
+      { apply groups_bad. apply orb_prop in Eurl. destruct Eurl as [E|E].
+        - apply (contains_not_in 45); [exact E | reflexivity].
+        - apply (contains_not_in 95); [exact E | reflexivity]. }
+      rewrite Hstd_bad, Hurl_bad. destruct cond; reflexivity.
+    + specialize (Hdec false). cbn [alphabet_of] in Hdec.
+      destruct (negb (k =? 0)%nat); rewrite Hdec, Hurl_bad; destruct cond; try reflexivity;
+        destruct (base64_groups BASE64 data); reflexivity.
+  - cbn [andb]. apply orb_false_elim in Ecl. destruct Ecl as [E43 E47].
+    specialize (Hdec true). cbn [alphabet_of] in Hdec.
+    assert (Hgoal : (if cond then base64_groups BASE64URL data else None) =
+                    match (if cond then base64_groups BASE64 data else None) with
+                    | Some bs => Some bs
+                    | None => if cond then base64_groups BASE64URL data else None
+                    end).
+    { destruct cond; [|reflexivity].
+      destruct (contains 45 data || contains 95 data) eqn:Eurl.
+      - assert (Hstd_bad : base64_groups BASE64 data = None).
+        { apply groups_bad. apply orb_prop in Eurl. destruct Eurl as [E|E].
+          - apply (contains_not_in 45); [exact E | reflexivity].
+          - apply (contains_not_in 95); [exact E | reflexivity]. }
+        rewrite Hstd_bad. reflexivity.
+      - apply orb_false_elim in Eurl. destruct Eurl as [E45 E95].
+        rewrite (groups_agree data (no_special data E43 E47 E45 E95)).
+        destruct (base64_groups BASE64URL data); reflexivity. }
+    destruct (negb (k =? 0)%nat); rewrite Hdec; exact Hgoal.
+Qed.
+
+(* b64_ok, provable part *)
+Theorem b64_ok_partial : forall tok, bytes_b64_spelling tok = true ->
+  extra_ws false (b64_content tok) = false ->
+  inner_pad (strip_ws_comments false (b64_content tok)) = false ->
+  bytes_b64_model tok = b64_lit tok.
+Proof.
+  intros tok Hg Hx Hip. destruct (b64_token tok Hg) as [Ho Hb].
+  unfold b64_lit, bytes_b64_model, clean_prefixed_byte_string. rewrite Ho, Hb. cbn [obind].
+  unfold b64_content in *. rewrite (clean_strip _ _ Hx). apply base64_decode_either. exact Hip.
+Qed.
+
+(* b64_ok, the full statement, is FALSE of the faithful model in two ways *)
+Theorem b64_ok_refuted_ws : exists tok,        (* b64'YQ<U+00A0>==' *)
+  bytes_b64_spelling tok = true /\ b64_lit tok = None /\ bytes_b64_model tok = Some [97].
+Proof. exists [98; 54; 52; 39; 89; 81; 160; 61; 61; 39]. vm_compute. auto. Qed.
+
+Theorem b64_ok_refuted_inner_pad : exists tok, (* b64'YQ==YQ==' : padding in the middle is accepted *)
+  bytes_b64_spelling tok = true /\ b64_lit tok = None /\ bytes_b64_model tok = Some [97; 97].
+Proof. exists [98; 54; 52; 39; 89; 81; 61; 61; 89; 81; 61; 61; 39]. vm_compute. auto. Qed.
+
+Example b64_example :    (* b64'-_8 ;c<LF> =' under base64url, b64'+/8=' under base64: the same three/two bytes *)
+  b64_lit [98;54;52;39; 45;95;56;32;59;99;10;32;61; 39] = Some [251; 255]
+  /\ b64_lit [98;54;52;39; 43;47;56;61; 39] = Some [251; 255]
+  /\ b64_lit [98;54;52;39; 43;95;56;61; 39] = None          (* mixed alphabets *)
+  /\ b64_lit [98;54;52;39; 89;82;61;61; 39] = None.         (* YR== : non-zero trailing bits *)
+Proof. vm_compute. auto. Qed.
+
+(* ---------- unprefixed byte strings ---------- *)
+Lemma denote_no_backslash : forall q s, existsb (N.eqb 92) s = false -> forallb (fun c => negb (c =? q)) s = true ->
+  denote_st q DNorm s = Some s.
+Proof.
+  induction s as [|c r IH]; intros Hb Hq; [reflexivity|].
+  cbn [existsb forallb] in *. apply orb_false_elim in Hb. destruct Hb as [Hc Hb]. apply andb_prop in Hq. destruct Hq as [Hcq Hq].
+  cbn [denote_st]. destruct (c =? q); [discriminate|]. rewrite (N.eqb_sym c 92), Hc. cbn [negb].
+  rewrite (IH Hb Hq). reflexivity.
+Qed.
+
+(* provable part: without a backslash the stored text is the RFC value *)
+Theorem bytes_utf8_ok_partial : forall tok, bytes_utf8_spelling tok = true ->
+  has_backslash (bytes_utf8_chars tok) = false -> Some (bytes_utf8_chars tok) = bytes_text_lit tok.
+Proof.
+  intros tok Hg Hb. destruct (butf8_token tok Hg) as [Ho Hbt].
+  unfold bytes_text_lit. rewrite Ho, Hbt. cbn [obind]. unfold bytes_utf8_chars, has_backslash in *.
+  symmetry. apply denote_no_backslash; [exact Hb|].
+  unfold bytes_utf8_spelling in Hg. destruct tok as [|q r]; [discriminate|].
+  apply andb_prop in Hg. destruct Hg as [_ Hq]. unfold quoted_tail in Hq.
+  apply andb_prop in Hq. destruct Hq as [_ Hq]. unfold no_quote, strip_last in Hq.
+  unfold strip_quotes. cbn [skipn]. exact Hq.
+Qed.
+
+(* the full statement is FALSE of the faithful model: the escapes of RFC 9682 2.2 are not processed *)
+Theorem bytes_utf8_ok_refuted : exists tok,    (* 'a\\b' is stored as the 4 characters a \ \ b; the RFC value is a \ b *)
+  bytes_utf8_spelling tok = true /\ bytes_text_lit tok = Some [97; 92; 98] /\ bytes_utf8_chars tok = [97; 92; 92; 98].
+Proof. exists [39; 97; 92; 92; 98; 39]. vm_compute. auto. Qed.
